@@ -88,6 +88,19 @@ func Freeze() {
 	}
 }
 
+// closedErr reports whether the reactor is shutting down or frozen.
+// It is checked before anything else so that, once Stop or Freeze has returned, nothing more is
+// accepted: a select alone picks at random between a cancelled context and a ready channel.
+func (r *reactor) closedErr() error {
+	if r.ctx.Err() != nil {
+		return ErrReactorShuttingDown
+	}
+	if r.freezeCtx.Err() != nil {
+		return ErrReactorFrozen
+	}
+	return nil
+}
+
 // ReceiveFeedback sends an item to the feedback channel.
 // If the item is not present on the state table it gets discarded
 func ReceiveFeedback(item *models.Item) error {
@@ -98,6 +111,10 @@ func ReceiveFeedback(item *models.Item) error {
 	if !item.IsSeed() {
 		spew.Dump(item)
 		panic("item is not a seed")
+	}
+
+	if err := globalReactor.closedErr(); err != nil {
+		return err
 	}
 
 	// An item sent to the feedback channel should be present on the state table, if not present reactor should error out
@@ -125,6 +142,11 @@ func ReceiveFeedback(item *models.Item) error {
 func ReceiveInsert(item *models.Item) error {
 	if globalReactor == nil {
 		return ErrReactorNotInitialized
+	}
+
+	if err := globalReactor.closedErr(); err != nil {
+		logger.Debug("received item on closed reactor", "item", item.GetShortID(), "err", err)
+		return err
 	}
 
 	select {
